@@ -228,18 +228,32 @@ func H12a_q() {
 	unitNs := [7]int64{3600e9, 60e9, 1e9, 1e6, 1e3, 1, 0}
 	val := make([]byte, 0, 12)
 	v := int64(0)
+	// the grammars are "1*10DIGIT" / "1*8DIGIT Unit": digits are counted (leading zeros included), a sign is no digit
+	lead := vInt("lead", 0, 2)
+	switch lead {
+	case 1:
+		val = append(val, '+')
+	case 2:
+		val = append(val, '-')
+	}
+	digits := make([]byte, 0, 12)
+	lz := vInt("lz", 0, 1) == 1 // case split: a redundant leading zero (it counts as a digit)
+	vSkipCase(lz && nd == 1)
 	for i := 0; i < nd; i++ {
-		// numbers are written without redundant leading zeros (the specs count digits; the code compares values)
 		var d int
-		if i == 0 && nd > 1 {
+		switch {
+		case i == 0 && lz:
+			d = 0
+		case i == 0 && nd > 1:
 			d = vIntAt("digit", i, 11, 1, 9)
-		} else {
+		default:
 			d = vIntAt("digit", i, 11, 0, 9)
 		}
 		val = append(val, byte('0'+d))
+		digits = append(digits, byte('0'+d))
 	}
 	// the numeric value of the digits, by the standard library (trusted; the code under test is extractTimeout)
-	v, _ = strconv.ParseInt(string(val), 10, 64)
+	v, _ = strconv.ParseInt(string(digits), 10, 64)
 	name := "Connect-Timeout-Ms"
 	proto := conformancev1.Protocol_PROTOCOL_CONNECT
 	if grpc {
@@ -263,10 +277,10 @@ func H12a_q() {
 	var accept bool
 	var want int64
 	if !grpc {
-		accept = nd <= 10
+		accept = nd <= 10 && lead == 0
 		want = v * 1e6
 	} else {
-		accept = nd <= 8 && unitIdx < 6
+		accept = nd <= 8 && unitIdx < 6 && lead == 0
 		if accept {
 			if unitIdx == 0 && v > 2562047 { // only hours can exceed the int64 nanosecond range with <= 8 digits
 				want = 9223372036854775807
